@@ -236,6 +236,34 @@ func C06(r *core.Run) {
 			r.Inconclusive(fmt.Sprintf("case %s missed the 10s bound once but completed when re-run alone", c.ID))
 		}
 	}
+	// "the retry waited for more output" is a progress verdict (8 s): it counts only when the case, run alone, shows it again
+	stallSeen := map[string]bool{}
+	for i, res := range results {
+		for _, v := range res.Violations {
+			if strings.HasPrefix(v, "retry-waited-for-more-output") && !stallSeen[res.ID] {
+				stallSeen[res.ID] = true
+				rr := c06RunShards(r, bin, []c06Case{byID[res.ID]}, 20000)
+				again := false
+				if len(rr) == 1 {
+					for _, v2 := range rr[0].Violations {
+						if strings.HasPrefix(v2, "retry-waited-for-more-output") {
+							again = true
+						}
+					}
+				}
+				if !again {
+					var keep []string
+					for _, v3 := range res.Violations {
+						if !strings.HasPrefix(v3, "retry-waited-for-more-output") {
+							keep = append(keep, v3)
+						}
+					}
+					results[i].Violations = keep
+					r.Inconclusive(fmt.Sprintf("case %s: the retry did not move for 8 s once, but did at once when the case was re-run alone", res.ID))
+				}
+			}
+		}
+	}
 	acked, retried := 0, 0
 	maxDur := int64(0)
 	seenIDs := map[string]bool{}
